@@ -230,8 +230,12 @@ structure GcSpec where
   /-- value and operation index of the last successful top-level call -/
   lastVal : List (NodeId × Nat × Nat)
   lastChangeOp : Nat
+  /-- ids the property allowed some earlier `gc` to collect and that were not called since -/
+  collectable : List NodeId
+  /-- the client retained a reference to a collectable id (the node may legitimately be gone) -/
+  staleRetain : Bool
 
-def GcSpec.init (cap : Nat) : GcSpec := ⟨cap, [], [], [], [], [], [], 0⟩
+def GcSpec.init (cap : Nat) : GcSpec := ⟨cap, [], [], [], [], [], [], 0, [], false⟩
 
 def GcSpec.roots (g : GcSpec) : List NodeId := g.recent.take g.cap ++ g.retained.map (·.1)
 
